@@ -27,16 +27,24 @@ func (c *Ctx) errorPropagates(fd *ast.FuncDecl, isSource func(callee types.Objec
 func (c *Ctx) errorPropagatesFull(fd *ast.FuncDecl, isSource func(callee types.Object) bool) (bad, withResults []string, sources int, undecided []string) {
 	var h Hooks
 	isTag := func(v Value, t string) bool { return v.K == vTag && v.Tag == t }
+	var rootSig *types.Signature
+	if obj, ok := c.infoFor(fd).Defs[fd.Name].(*types.Func); ok {
+		rootSig = obj.Type().(*types.Signature)
+	}
 	h.Inline = func(fn *types.Func) bool {
 		if fn.Pkg() == nil || (fn.Pkg().Path() != bclPath && fn.Pkg().Path() != cmdPath) {
 			return false
 		}
-		// helpers that take or give an error are read through; the rest of the module is opaque
+		// helpers that take an error are read through, and so are functions with the very result list of the
+		// function analysed (it delegates to them); the rest of the module is opaque
 		sig := fn.Type().(*types.Signature)
 		for i := 0; i < sig.Params().Len(); i++ {
 			if isErrorType(sig.Params().At(i).Type()) {
 				return true
 			}
+		}
+		if rootSig != nil && sig.Results().Len() > 0 && types.Identical(sig.Results(), rootSig.Results()) && !isSource(fn) {
+			return true
 		}
 		return false
 	}
